@@ -1,11 +1,12 @@
-\* C17 negative control: a wrong implementation of the reload ("inplace"); TLC must find Undisturbed or Fresh violated
+\* C17 negative control: a server that stops reacting to reload requests after the first one that failed ("deaf"),
+\* real-server scripts with failed reloads; TLC must find Fresh violated (a handshake after the next reload sees the old identity)
 SPECIFICATION Spec
 CONSTANTS
-  Mode = "inplace"
+  Mode = "deaf"
   MaxConn = 2
   MaxReload = 2
   MaxUse = 2
-  Mtls = {FALSE}
+  Mtls = {}
   RMaxConn = 2
   RMaxReload = 1
   RMaxUse = 1
@@ -24,7 +25,7 @@ CONSTANTS
   FReload = 1
   FBotch = 1
   FUse = 1
-  FailMtls = {}
-  Extra = {}
+  FailMtls = {FALSE}
+  Extra = {"rfail"}
 INVARIANTS TypeOK Undisturbed Fresh
 CHECK_DEADLOCK FALSE
